@@ -815,7 +815,7 @@ def asm_term(st):
 
 
 # ------------------------------------------------------------------------------------------------ whole cases
-def gen_isa_case(rng, prof, tier):
+def _gen_isa_case(rng, prof, tier):
     from .sysgen import num
     isa = gen_isa(rng, prof)
     cfg = dict(addr_bits=16, endian=isa['endian'], origin=rng.choice([0, 0, 0x100]), page=1, terminator=0, embedded=False,
@@ -840,6 +840,16 @@ def gen_isa_case(rng, prof, tier):
             stmts.append(['label', x])
     return {'cfg': cfg, 'isa': isa, 'isa_yaml': isa_yaml(isa, cfg), 'files': [{'name': 'main.asm', 'dir': 'src', 'stmts': stmts}],
             'include_dirs': [], 'extra_files': [], 'opts': {'start': cfg['origin'], 'end': None, 'fill': 0}}
+
+
+def gen_isa_case(rng, prof, tier):
+    # a generator slip for some unusual draw must not stop a check: draw again
+    for _ in range(20):
+        try:
+            return _gen_isa_case(rng, prof, tier)
+        except (ValueError, IndexError, KeyError):
+            continue
+    return _gen_isa_case(rng, prof, tier)
 
 
 def isa_case_term(case):
